@@ -53,8 +53,8 @@ pub fn wrap_is_spec(KL: usize, PL: usize, mem: u64, time: u32, para: u32, defaul
     let kb: [u8; KX] = kani::any();
     let ptk = &kb[..KL];
     vmodel_core::rng_may_fail(false);
-    let d0 = vmodel_core::rng_preview(0);
-    let d1 = vmodel_core::rng_preview(1);
+    let d0 = vmodel_core::rng_preview_len(16);
+    let d1 = vmodel_core::rng_preview_len(24);
     let mut salt = [0u8; 16];
     salt.copy_from_slice(&d0[..16]);
     let mut n = [0u8; 24];
@@ -69,7 +69,7 @@ pub fn wrap_is_spec(KL: usize, PL: usize, mem: u64, time: u32, para: u32, defaul
     vcheck_all!(
         (ok, "[C05] password wrapping with valid parameters always succeeds"),
         (!ok || out.len() == 88 + KL, "[C05] PBKW blob has the fixed length 16+8+4+4+24+|key|+32"),
-        (vmodel_core::rng_draws() == 2 && vmodel_core::rng_draw(0).len == 16 && vmodel_core::rng_draw(1).len == 24, "[C16] PBKW draws a fresh 16-byte salt and a fresh 24-byte nonce"),
+        (vmodel_core::rng_draws() == 2 && vmodel_core::rng_has_len(16) && vmodel_core::rng_has_len(24), "[C16] PBKW draws a fresh 16-byte salt and a fresh 24-byte nonce"),
         (!ok || out[..] == spec[..], "[C07] PBKW output equals the PASERK specification's blob for the salt, nonce and parameters it embeds"),
     );
 }
